@@ -243,6 +243,7 @@ func (m *monC08) AfterBlock(c *Chain, req *abci.RequestFinalizeBlock, res *abci.
 	var jailedPower, maxSingle int64
 	keyTouched := map[string]bool{} // consumers whose key mapping may have changed earlier in this block
 	imprecise := map[string]bool{}
+	meterUnknown := false
 	// validators whose staking state (status, jailed flag, power) may have been changed by a transaction earlier in this
 	// block (e.g. an operator undelegating below the minimum self-delegation is jailed by x/staking): the pre-block
 	// snapshot is then not what the slash handler saw
@@ -348,6 +349,7 @@ func (m *monC08) AfterBlock(c *Chain, req *abci.RequestFinalizeBlock, res *abci.
 				}
 				if keyTouched[id] || stakeTouched[pc] {
 					imprecise[id] = true
+					meterUnknown = true // this packet may or may not have jailed somebody: the meter and "already jailed" are unknown from here on
 					if stakeTouched[pc] {
 						w.Event("C08", "packets-for-validator-touched-by-staking-tx-in-same-block")
 					}
@@ -368,6 +370,11 @@ func (m *monC08) AfterBlock(c *Chain, req *abci.RequestFinalizeBlock, res *abci.
 					row = "not-in-set"
 					m.expectAck(id, ackStr)
 					m.wantAck(w, id, result, ccv.SlashPacketHandledResult, row)
+				case meterUnknown:
+					// an earlier packet of this block was judged imprecisely: admission and the jailed flag cannot be predicted
+					imprecise[id] = true
+					w.Event("C08", "packets-after-an-imprecise-one-in-the-same-block")
+					continue
 				case meter.IsNegative():
 					row = "bounced"
 					w.Event("C09", "bounces")
